@@ -7,14 +7,14 @@ VERIF = os.path.dirname(os.path.dirname(os.path.abspath(__file__)))
 
 CLAIMED = {
     # id: (technique, level text, level note, design ref)
-    "C06": ("small-scope exhaustive enumeration + rapid derivation/mutation generators + native go fuzzing, oracle = independent grammar recogniser/parser and render-reparse round trip",
+    "C06": ("small-scope exhaustive enumeration + rapid derivation/mutation generators + native go fuzzing, oracle = independent grammar recogniser/parser and render-reparse round trip; spacing neighbours parsed by the same parser instance; reference-free closure relations (concatenation, splitting)",
             "Every string up to length 6 (quick) / 7 (thorough) over a 13-symbol token-class alphabet and up to 7 / 9 over the structural symbols is parsed and compared with an independent recursive-descent parser of the documented EBNF (acceptance, structure, canonical text, fixpoint); beyond the bound: random derivations, byte mutations and (thorough) coverage-guided fuzzing. Exhaustive inside the bound, sampled outside it.",
             "trusts the reference parser (internal/model/grammar.go, ~150 lines, written from internal/route/README.md) and the Go toolchain; character classes are represented by one member each in the exhaustive part",
             "DESIGN.md section 4 C06"),
 }
 
 CLAIMED["C01"] = (
-    "rapid-generated route sets and requests + small-scope enumeration, oracle = reference matcher over the flat route list (documented priority) and a priority-free brute force for the iff",
+    "rapid-generated route sets and requests (incl. wide sets with 13..30 siblings) + small-scope enumeration, oracle = reference matcher over the flat route list (documented priority) and a priority-free brute force for the iff; plus reference-free metamorphic relations (unrelated route, adjacent swap across ranks, other method, leading slashes)",
     "Random valid route sets (shared segment pool, random order, 1..2 methods) and constructed/mutated request paths are matched by route.Tree.Match and served by Flame.ServeHTTP; found/not-found must equal 'some route form admits the path' (brute force over alignments) and the winner must equal the reference matcher's. Plus every ordered set of <=2 (thorough <=3) compatible routes of a 12-route pool against all 780 paths of <=4 segments over 5 values.",
     "trusts the reference matcher internal/model/match.go (written from the statement) and Go's regexp for segment admission; only registrations the statement obliges the router to accept are used",
     "DESIGN.md section 4 C01")
@@ -130,7 +130,7 @@ def main():
             na.append({"property_id": pid, "reason": PENDING.get(pid, "check not built yet in this round (property-based check planned, see DESIGN.md section 4); not claimed until it runs clean")})
     man = {
         "version": 1,
-        "setup_cmd": "cd /verif/harness && GOFLAGS=-mod=mod GOPROXY=off GOSUMDB=off GOTOOLCHAIN=local go vet ./... >/dev/null 2>&1; cd /verif/harness && GOFLAGS=-mod=mod GOPROXY=off GOSUMDB=off GOTOOLCHAIN=local go test -count=1 -run '^$' ./... >/dev/null",
+        "setup_cmd": "cd /verif/harness && export GOFLAGS=-mod=mod GOPROXY=off GOSUMDB=off GOTOOLCHAIN=local && (go vet ./... >/dev/null 2>&1; go test -count=1 -run '^$' ./... >/dev/null && go test -count=1 ./internal/... >/dev/null)",
         "hooks": {
             "guard": "verif",
             "enable": "no source hooks are needed: the harness module path github.com/flamego/flamego/verifharness lets it import internal/route of the replaced module /repo, so checks compile /repo's working tree as it is",
